@@ -261,7 +261,53 @@ template <class G> static bool ridders(G g, double x, double h, double &res, dou
   return std::isfinite(res) && std::isfinite(err);
 }
 
-struct NumStats { long judged = 0, skipped_eval = 0, skipped_noconv = 0, skipped_range = 0, agree = 0; } g_num1, g_num2;
+struct NumStats { long judged = 0, skipped_eval = 0, skipped_noconv = 0, skipped_range = 0, agree = 0, onesided = 0; } g_num1, g_num2;
+
+
+// one-sided variant for points on the edge of the domain (values exist on one side only, e.g. gsl_sf_bessel_jl at x = 0):
+// D(h) = s(-3 f(x) + 4 f(x + s h) - f(x + 2 s h)) / (2h) = f'(x) + c2 h^2 + c3 h^3 + ...  extrapolated with factors CON^2, CON^3, ...
+template <class G> static bool ridders1(G g, double x, double h, int sgn, double &res, double &err) {
+  const int NT = 8; const double CON = 1.4;
+  double a[NT][NT], f0, f1, f2;
+  if (!g(x, f0)) return false;
+  auto D = [&](double hh, double &d) { if (!g(x + sgn * hh, f1) || !g(x + 2 * sgn * hh, f2)) return false; d = sgn * (-3 * f0 + 4 * f1 - f2) / (2 * hh); return true; };
+  if (!D(h, a[0][0])) return false;
+  err = HUGE_VAL; res = a[0][0];
+  for (int i = 1; i < NT; ++i) {
+    h /= CON;
+    if (!D(h, a[0][i])) return false;
+    double fac = CON * CON;
+    for (int j = 1; j <= i; ++j) {
+      a[j][i] = (a[j - 1][i] * fac - a[j - 1][i - 1]) / (fac - 1);
+      fac *= CON;
+      double errt = std::max(fabs(a[j][i] - a[j - 1][i]), fabs(a[j][i] - a[j - 1][i - 1]));
+      if (errt <= err) { err = errt; res = a[j][i]; }
+    }
+    if (fabs(a[i][i] - a[i - 1][i - 1]) >= 2.0 * err) break;
+  }
+  return std::isfinite(res) && std::isfinite(err);
+}
+
+template <class G> static int judge_onesided(G g, double x0, double h0, double an, NumStats &st, double &num, double &nerr) {
+  double f0, fp, fm, hs = h0 / 16;
+  if (!g(x0, f0)) { st.skipped_eval++; return 0; }
+  bool okp = g(x0 + hs, fp) && g(x0 + 2 * h0, fp), okm = g(x0 - hs, fm) && g(x0 - 2 * h0, fm);
+  if (okp == okm) { st.skipped_eval++; return 0; }
+  int sgn = okp ? 1 : -1;
+  double r1, e1, r2, e2, f1;
+  if (!ridders1(g, x0, h0, sgn, r1, e1) || !ridders1(g, x0, 0.37 * h0, sgn, r2, e2) || !g(x0 + sgn * hs, f1)) { st.skipped_eval++; return 0; }
+  double q = sgn * (f1 - f0) / hs;
+  double mag = std::max(std::max(fabs(r1), fabs(r2)), fabs(an));
+  double conv = std::max(e1, e2) + fabs(r1 - r2);
+  num = r2; nerr = conv;
+  double floor_ = 256 * DBL_EPSILON * std::max(fabs(f0), fabs(f1)) / hs;
+  double rmag = std::max(fabs(r1), fabs(r2)), fscale = std::max(fabs(f0), fabs(f1)) / hs;
+  if (!(conv <= 1e-3 * rmag || rmag <= 1e-6 * fscale)) { st.skipped_noconv++; return 0; }
+  if (f1 == f0 || mag <= 100 * floor_ || !(conv <= 1e-5 * mag) || !(fabs(q - r2) <= 0.05 * mag)) { st.skipped_noconv++; return 0; }
+  st.judged++; st.onesided++;
+  if (fabs(an - r2) <= 1e-3 * mag + 1000 * conv + 100 * floor_) { st.agree++; return 1; }
+  return -1;
+}
 
 // compare analytic value `an` with the numerical derivative of g at x0.
 // Judged only when (a) x0 is 0 or 1e-6 <= |x0| <= 1e3, (b) two Ridders extrapolations started from different
@@ -273,7 +319,7 @@ template <class G> static int judge(G g, double x0, double an, NumStats &st, dou
   if (!(x0 == 0 || (ax >= 1e-6 && ax <= 1e3)) || !std::isfinite(an)) { st.skipped_range++; return 0; }
   double h0 = x0 == 0 ? 1e-3 : std::min(0.02 * ax, 0.05);
   double r1, e1, r2, e2, f0, fp, fm;
-  if (!ridders(g, x0, h0, r1, e1) || !ridders(g, x0, 0.37 * h0, r2, e2)) { st.skipped_eval++; return 0; }
+  if (!ridders(g, x0, h0, r1, e1) || !ridders(g, x0, 0.37 * h0, r2, e2)) return judge_onesided(g, x0, h0, an, st, num, nerr);
   double hs = h0 / 16;
   if (!g(x0, f0) || !g(x0 + hs, fp) || !g(x0 - hs, fm)) { st.skipped_eval++; return 0; }
   if (fp == f0 && fm == f0) { st.skipped_noconv++; return 0; }   // locally constant in double precision: nothing to difference
@@ -284,6 +330,10 @@ template <class G> static int judge(G g, double x0, double an, NumStats &st, dou
   // resolution of a difference quotient of doubles: values that saturate (erf(7.5) == 1) give 0 +- floor
   double floor_ = 256 * DBL_EPSILON * std::max(std::max(fabs(f0), fabs(fp)), fabs(fm)) / hs;
   if (mag <= 100 * floor_) { st.skipped_noconv++; return 0; }
+  // the estimate must also be converged on its own scale (or be numerically zero on the scale |f|/h): near a genuine
+  // singularity a huge analytic value would otherwise dominate `mag` and make garbage look converged
+  double rmag = std::max(fabs(r1), fabs(r2)), fscale = std::max(std::max(fabs(f0), fabs(fp)), fabs(fm)) / hs;
+  if (!(conv <= 1e-3 * rmag || rmag <= 1e-6 * fscale)) { st.skipped_noconv++; return 0; }
   if (!(conv <= 1e-6 * mag) || !(fabs(fwd - bwd) <= 0.05 * mag) || !(fabs(0.5 * (fwd + bwd) - r2) <= 0.05 * mag)) { st.skipped_noconv++; return 0; }
   st.judged++;
   if (fabs(an - r2) <= 1e-3 * mag + 1000 * conv + 100 * floor_) { st.agree++; return 1; }
@@ -725,8 +775,8 @@ int main(int argc, char **argv) {
     g_hist["functions_swept_over_all_dig_patterns"] = all; g_hist["functions_with_no_error_free_derivative_call_in_dig_sweep"] = none; }
   for (auto &f : g_find.first) printf("FINDING %s | %ld | %s\n", f.first.c_str(), g_find.count[f.first], f.second.c_str());
   printf("STAT functions %d\nSTAT calls %ld\n", nreal, g_calls);
-  printf("STAT num1 judged=%ld agree=%ld skipped_eval=%ld skipped_noconv=%ld skipped_range=%ld\n", g_num1.judged, g_num1.agree, g_num1.skipped_eval, g_num1.skipped_noconv, g_num1.skipped_range);
-  printf("STAT num2 judged=%ld agree=%ld skipped_eval=%ld skipped_noconv=%ld skipped_range=%ld\n", g_num2.judged, g_num2.agree, g_num2.skipped_eval, g_num2.skipped_noconv, g_num2.skipped_range);
+  printf("STAT num1 judged=%ld agree=%ld skipped_eval=%ld skipped_noconv=%ld skipped_range=%ld onesided=%ld\n", g_num1.judged, g_num1.agree, g_num1.skipped_eval, g_num1.skipped_noconv, g_num1.skipped_range, g_num1.onesided);
+  printf("STAT num2 judged=%ld agree=%ld skipped_eval=%ld skipped_noconv=%ld skipped_range=%ld onesided=%ld\n", g_num2.judged, g_num2.agree, g_num2.skipped_eval, g_num2.skipped_noconv, g_num2.skipped_range, g_num2.onesided);
   for (auto &h : g_hist) printf("HIST %s %ld\n", h.first.c_str(), h.second);
   printf("DONE\n");
   return 0;
